@@ -86,6 +86,17 @@ def judge(ctx, exe, drivercmd, tracefile, want, tag):
     return len(rejects)
 
 
+def suite(ctx, exe, want, tag):
+    """The repository's own tests as a trace source (vlib.suite_traces): every certificate lint execution they make is re-derived
+    by `drive suite` and judged by Trace_Exec - the recorded outcome against Base!Outcome and against this process's own run."""
+    vlib.suite_traces(ctx)
+    d = vlib.drive(ctx, exe, 'suite')
+    s = json.load(open(os.path.join(d, 'summary.json')))
+    judge(ctx, exe, 'suite', os.path.join(d, 'suite.ndjson'), want, tag)
+    return dict(recorded_executions=s['recorded_executions'], distinct_executions=s['distinct_executions'], lints_seen=s['lints_seen'], with_finding=s['with_finding'],
+                objects_changed_by_the_test=s['objects_changed_by_the_test'], test_processes=len(s['test_processes']), unregistered_lints=s['unregistered_lints'])
+
+
 def compact(e):
     return {k: (v if not isinstance(v, list) or len(v) < 12 else v[:12] + ['...']) for k, v in e.items()}
 
